@@ -34,7 +34,7 @@ ASSUMPTIONS = [
 REAL = REAL_ALL
 STUB = STUB_ALL + ["stdout during stratum-P runs: every write raises ENOSPC (I/O fault at the policy's print step)", "pass-through wrappers recording that Fail._decide_match / Stopper._stop_me / ErrorHandler._handle_if executed (secondary monitor)"]
 
-FAMILIES = ["plain", "no", "fas", "onmatch", "after_stop", "after_skip", "when_false", "error", "error_vm_fail", "error_vm_nofail", "onmatch_rejected", "fail_then_error", "error_skip_same_line", "fas_onmatch", "plain_nocontrib", "fas_nocontrib", "abort_outside", "error_lhs_fail"]
+FAMILIES = ["plain", "no", "fas", "onmatch", "after_stop", "after_skip", "when_false", "error", "error_vm_fail", "error_vm_nofail", "onmatch_rejected", "fail_then_error", "error_skip_same_line", "fas_onmatch", "plain_nocontrib", "fas_nocontrib", "abort_outside", "error_lhs_fail", "imported_plain", "fail_all_stop_all"]
 PRE = 'push("bl", line_number()) push("b", valid()) push("bf", failed())'
 POST = 'push("al", line_number()) push("a", valid()) push("af", failed()) simprobe("p")'
 
@@ -56,6 +56,13 @@ def family_body(fam, K):
         return '#c == "NEVER" -> fail()'
     if fam in ("error", "error_vm_fail", "error_vm_nofail"):
         return 'simfault("s")'
+    if fam == "imported_plain":
+        # the rule lives in another named-paths group and is pulled in with import(): every importing member gets its own
+        # copy of it (K is the same for all importers of a scenario: see lib_text)
+        return 'import("lib")'
+    if fam == "fail_all_stop_all":
+        # "fail the file for everyone and end the run" on one line (breadth-first runs only)
+        return f"line_number() == {K} -> fail_all() line_number() == {K} -> stop_all()"
     if fam == "error_lhs_fail":
         # the left-hand side of a when/do errors on line K (and is false everywhere else): the fail() on the right is never due
         return 'gt(simfaultv("s"), 100) -> fail()'
@@ -138,6 +145,29 @@ def generate(rng, i, tier):
         # two or more members written with the SAME identity (legal: nothing forbids it); families without injected errors
         members = [{"fam": rng.choice(["plain", "no", "fas", "when_false", "after_stop", "after_skip", "plain"]), "K": rng.randint(0, nrec), "K2": 0} for _ in range(k)]
     method = rng.choice(["standalone"] + ops.METHODS * 2)
+    libK = rng.randint(0, nrec)
+    seen_fasa = False
+    for m in members:
+        if m["fam"] == "imported_plain":
+            if method == "standalone":
+                m["fam"] = "plain"
+            else:
+                m["K"] = libK
+        if m["fam"] == "fail_all_stop_all":
+            if method not in ops.BYLINE or seen_fasa:
+                m["fam"] = "plain"
+            else:
+                seen_fasa = True
+    if seen_fasa:
+        # siblings of the signalling member: families that never stop, skip or raise (what a stopped member makes of a
+        # sibling's fail_all() is not this stratum's business)
+        for m in members:
+            if m["fam"] not in ("fail_all_stop_all", "plain", "no", "when_false", "plain_nocontrib", "imported_plain"):
+                m["fam"] = "plain"
+            m.pop("scan", None)
+        # the signalling member goes first: siblings ordered BEFORE it have already been visited on that line and are
+        # stopped before the signal is applied to them (they stay valid in the unchanged library; not asserted here)
+        members.sort(key=lambda m: m["fam"] != "fail_all_stop_all")
     if method not in ops.SERIAL:
         # a failure outside every component is only handled member by member in a serial CsvPaths run (a standalone CsvPath
         # hands it to the caller; a breadth-first run drops the rest of that line for the other members)
@@ -186,9 +216,9 @@ def reductions(sc):
             yield with_(sc, planted=[x for x in sc["planted"] if x != l])
     if sc.get("prelude"):
         yield with_(sc, prelude=None)
-    if sc["method"] not in ("standalone", "collect_paths") and not any(m.get("fam") == "abort_outside" for m in sc["members"]):
+    if sc["method"] not in ("standalone", "collect_paths") and not any(m.get("fam") in ("abort_outside", "fail_all_stop_all") for m in sc["members"]):
         yield with_(sc, method="collect_paths")
-    if sc["method"] in ops.SERIAL and sc["method"] != "collect_paths":
+    if sc["method"] in ops.SERIAL and sc["method"] != "collect_paths" and not any(m.get("fam") == "imported_plain" for m in sc["members"]):
         yield with_(sc, method="collect_paths")
 
 
@@ -208,8 +238,10 @@ def first_event(sc, m, lines):
     fam, K = m["fam"], m["K"]
     pol_fail = "fail" in sc["policy"]
     pol_stop = "stop" in sc["policy"]
-    if fam == "plain":
+    if fam in ("plain", "imported_plain"):
         return (K if K in lines else None), True, None
+    if fam == "fail_all_stop_all":
+        return (K if K in lines else None), True, (K if K in lines else None)
     if fam in ("fas", "onmatch", "fas_onmatch", "fas_nocontrib"):
         p = [l for l in sc["planted"] if l in lines]
         return (p[0] if p else None), True, (p[0] if p and fam != "onmatch" else None)
@@ -254,6 +286,10 @@ def execute(sc):
     members = sc["members"]
     k = len(members)
     exp = [first_event(sc, m, lines if m.get("scan", "*") == "*" else []) for m in members]
+    sig = next((m["K"] for m in members if m["fam"] == "fail_all_stop_all" and m["K"] in lines), None)
+    if sig is not None:
+        # fail_all() + stop_all() on line `sig` of a breadth-first run: every member is failed and stopped there
+        exp = [((min(F, sig) if F is not None else sig), (sl if (F is not None and F < sig) else True), sig) for (F, sl, last) in exp]
     plan = [(f"m{j}", m["K"], "s") for j, m in enumerate(members) if m["fam"].startswith("error")]
     plan += [(f"m{j}", m.get("K2", m["K"]), "s") for j, m in enumerate(members) if m["fam"] == "fail_then_error"]
     plan += [(f"m{j}", m["K"], "s") for j, m in enumerate(members) if m["fam"] == "error_skip_same_line"]
@@ -267,6 +303,8 @@ def execute(sc):
         F, same_line, _ = exp[j]
         if F is not None and line == F and ("onmatch" in members[j]["fam"] or members[j]["fam"] == "abort_outside"):
             return  # onmatch look-ahead: order of evaluation on the event line is not fixed
+        if sig is not None and line == sig:
+            return  # what a sibling sees on the very line of a fail_all() depends on its position in the group
         want = not (F is not None and (line > F or (line == F and same_line)))
         online["checks"] += 1
         if cp.is_valid != want and online["bad"] is None:
@@ -300,6 +338,11 @@ def execute(sc):
                 out.runs += 1
                 got.append({"cp": cp, "result_valid": None})
         else:
+            if any(m["fam"] == "imported_plain" for m in members):
+                libk = next(m["K"] for m in members if m["fam"] == "imported_plain")
+                lib_needed = f"$[*][ line_number() == {libk} -> fail() ]"
+            else:
+                lib_needed = None
             pre = sc.get("prelude")
             if pre and pre.get("policy_then"):
                 w.write_config(csvpath_policy=pre["policy_then"])
@@ -307,6 +350,8 @@ def execute(sc):
             with ops.quiet():
                 cs.file_manager.add_named_file(name="f", path="src/f.csv")
                 cs.paths_manager.add_named_paths(name="g", paths=[member_text(m, j, dup=bool(sc.get("dup_ids"))) for j, m in enumerate(members)])
+                if lib_needed:
+                    cs.paths_manager.add_named_paths(name="lib", paths=[lib_needed])
             if pre:
                 with ops.quiet():
                     cs.paths_manager.add_named_paths(name="p", paths=[f"~id:p0~ $[*][ line_number() == 1 -> {pre['signal']} ]", "~id:p1~ $[*][ yes() ]"])
@@ -382,7 +427,7 @@ def execute(sc):
                         break
                 if len(arr) != len(lns):
                     continue
-                uses_onmatch = "onmatch" in m["fam"] or m["fam"] == "abort_outside"
+                uses_onmatch = "onmatch" in m["fam"] or m["fam"] == "abort_outside" or (sig is not None and F == sig)
                 for l, x in zip(lns, vals):
                     before_event = arr_name in ("b", "bf")
                     if F is None:
@@ -432,6 +477,8 @@ def execute(sc):
         out.probe("run after an earlier run that used a cross-path signal on the same instance", False)
         out.probe("error policy in config.ini changed between two runs on one instance", False)
         out.probe("members sharing one identity", bool(sc.get("dup_ids")))
+        out.probe("fail_all() and stop_all() on one line of a breadth-first run", sig is not None and k > 1)
+        out.probe("two members importing the same csvpath that holds a fail()", sum(1 for m in members if m["fam"] == "imported_plain") > 1)
         out.probe("member with explain-mode", any(m.get("explain") for m in members))
         out.probe("member whose scan selects no line", any(m.get("scan", "*") != "*" for m in members))
         out.probe("verdict event on the last line", "last" in pos)
